@@ -41,11 +41,13 @@ PROPS = {
     ),
     'C13': dict(
         text='Block execution as a function of (block, prior chain): TLC generates blocks together with a schedule of '
-             'process-local activity (side blocks, CheckTx, queries, GC) and re-executions under conditions '
+             'process-local activity (side blocks, CheckTx, queries, GC, another chain instance started in the same process) and '
+             're-executions under conditions '
              '{long-running process, fresh child process} x GOMAXPROCS {1,2,16}, >= 5 repetitions each, and 5 concurrent '
              'EventExecTxList requests in the long-running process; a binding table requires '
              'byte-identical digests of receipts (EventExecTxList and PreExecBlock), state write set, state root, local add set '
-             '(EventAddBlock) and local del set (EventDelBlock) for every execution of the same term, and equality with the '
+             '(EventAddBlock) and local del set (EventDelBlock) for every execution of the same term - and of the local data left by '
+             'the genesis block on an empty database (plugin flag records included) for every chain instance -, and equality with the '
              "reference semantics' prediction. Recorded runs are validated by the trace specification Exec_Trace (same "
              '(block, prior) => same digest).',
         note='Index plugins stat and addrfeeindex additionally enabled in half of the runs (the executor-side MVCC stays off: with it the genesis version record is stored as an empty value and block 1 cannot be executed at all); goroutine schedules are varied only '
@@ -238,7 +240,9 @@ def _c13(ctx, b, q):
     ctx.rule = ('behaviours = TLC simulation of Exec.tla with Run / Activity steps: every block is executed under several '
                 'conditions (process fresh|long-running x GOMAXPROCS 1|2|16, 5 repetitions each; 5 concurrent requests in the long-running '
                 'process) interleaved with process-local '
-                'activity, then connected; non-trivial = the same (prior chain, block) term executed under >= 2 differing conditions; '
+                'activity (including another chain instance started in the same process), then connected; the genesis block on an empty '
+                'database is a focal block too (its local data in this chain, in a second chain of the long-running process, in fresh '
+                'processes); non-trivial = the same (prior chain, block) term executed under >= 2 differing conditions; '
                 'recorded random scenarios (larger blocks, coins / none / user.* transactions, plugins on and off, blocks delivered as peer '
                 'blocks so that the parallel signature verification runs) validated by Exec_Trace')
     ctx.assumptions += ['goroutine schedules varied only through GOMAXPROCS, repetition and prior activity',
